@@ -117,7 +117,8 @@ PROPS = {
         TAL_BASIC + S_TALES + S_INTERP + [K("k3::S-OnError-keep"), K("k3::S-I18nTarget"),
                                             K("k3::S-UseExternal"), K("k3::S-MacroUseInternal"),
                                             K("k3::S-MacroUseInternal-after-expr"),
-                                            K("template.py::BaseTemplate.render")],
+                                            K("template.py::BaseTemplate.render"),
+                                            U('pyvc.frames', 'render_write_frame', 'render.write_frame')],
         ["create_formatted_exception itself (dynamic class creation; outside the subset)",
          "ExceptionFormatter record order (pending)"]),
     "C03": {
@@ -288,7 +289,9 @@ PROPS = {
                       "host; regex matches as uninterpreted functions of the searched text (plus structural facts "
                       "read off the pattern: mandatory groups, ASCII-only groups).",
         "units": [K("utils.py::read_bytes"), K("utils.py::detect_encoding"), K("utils.py::read_xml_encoding"),
-                  K("template.py::BaseTemplate.write@str"), K("template.py::BaseTemplate.write@bytes")],
+                  K("template.py::BaseTemplate.write@str"), K("template.py::BaseTemplate.write@bytes"),
+                  U('pyvc.regexlang', 'meta_unit', 're_meta.order'),
+                  U('pyvc.frames', 'render_write_frame', 'render.write_frame')],
         "not_decided": ["RE_META fixes the attribute order http-equiv before content (finding D16)",
                         "template.write/read/parse plumbing (pending)"],
         "assumptions": COMMON_ASSUMPTIONS + ["bytes are modelled as strings of code points 0..255"],
